@@ -123,10 +123,23 @@ def run_real(d, S, store, instances, via_handler=False):
     cls = _setup()[d]
     js = import_lib()
     if via_handler and store:
-        res = _TR.from_schema(S, id_of=cls.ID_OF, handlers={"http": tracing.CountingHandler(store)})
+        # the first retrieval of every document fails (the network hiccups once); a first pass over the instances may
+        # therefore end in RefResolutionError -- afterwards every reference designates its target as if nothing had been
+        h = tracing.CountingHandler(store)
+        h.fail_once.update(store)
+        res = _TR.from_schema(S, id_of=cls.ID_OF, handlers={"http": h})
     else:
         res = _TR.from_schema(S, id_of=cls.ID_OF, store=copy.deepcopy(store))
     v = cls(S, resolver=res)
+    if via_handler and store:
+        for I in instances:
+            try:
+                list(v.iter_errors(I))
+            except js.exceptions.RefResolutionError:
+                pass
+            except Exception:  # noqa -- judged in the real pass below
+                pass
+        del res.events[:]
     out = []
     for I in instances:
         try:
